@@ -969,20 +969,46 @@ package erpc
 // a connection rejected by an accept hook is closed as a SESSION (so that an index
 // entry a hook created with SetID is removed and the disconnect hook runs), not
 // just as a raw connection
+//@ ghost global anywayGos int
+//@ ghost global lastAcceptOK bool
 //@ trusted AnywayGo
 //@   flags libframe spawns
-//@   modifies ghost.handleScheduled
+//@   modifies ghost.handleScheduled, ghost.anywayGos
+//@   ghostset ghost.anywayGos = old(ghost.anywayGos) + 1
+// C16: in ServeConn the reader is started only for a connection the accept hooks admitted
+//@ trusted AnywayGo in erpc.(*peer).ServeConn
+//@   flags libframe spawns
+//@   modifies ghost.handleScheduled, ghost.anywayGos
+//@   ghostset ghost.anywayGos = old(ghost.anywayGos) + 1
+//@   requires[admitted-before-reading] @C16 ghost.lastAcceptOK
 //@ trusted newSession
 //@   flags libframe
 //@   ensures result != nil
 //@ trusted (*pluginSingleContainer).postAccept
 //@   flags libframe
-//@   modifies allof(type(session)), allof(type(socket.socket)), lockset, mapviews
+//@   modifies allof(type(session)), allof(type(socket.socket)), lockset, mapviews, ghost.lastAcceptOK
+//@   ghostset ghost.lastAcceptOK = statOK(result)
+// the listener's per-connection function: same admission order as ServeConn
+//@ trusted (*session).startReadAndHandle in erpc.(*peer).serveListener$1
+//@   flags libframe
+//@   requires[admitted-before-reading] @C16 ghost.lastAcceptOK
+//@   modifies allof(type(session)), allof(type(socket.socket)), allof(type(callCmd)), lockset, waitgroups, channels, mapviews, ghost.readerRuns
+//@   ghostset ghost.readerRuns = old(ghost.readerRuns) + 1
+//@ ghost global readerRuns int
+//@ func (*peer).serveListener$1
+//@   property C16 C07
+//@   flags libframe frame-unchecked
+//@   requires p != nil && p.pluginContainer != nil && p.sessHub != nil
+//@   modifies allof(type(session)), allof(type(socket.socket)), allof(type(callCmd)), lockset, waitgroups, channels, mapviews, ghost.sessionCloses, ghost.postDisconnectRuns, ghost.readerRuns, ghost.lastAcceptOK, ghost.hubSets
+//@   ensures[read-only-if-admitted] ghost.readerRuns > old(ghost.readerRuns) ==> ghost.lastAcceptOK
+//@   ensures[rejected-connection-closed-as-session] @C07 !ghost.lastAcceptOK && ghost.sessionCloses == old(ghost.sessionCloses) ==> ghost.readerRuns == old(ghost.readerRuns)
 //@ func (*peer).ServeConn
-//@   property C07
+//@   property C07 C16
+//@   ensures[rejected-connection-never-read] @C16 !statOK(result.1) ==> ghost.anywayGos == old(ghost.anywayGos)
+//@   ensures[admitted-connection-read-once] @C16 statOK(result.1) ==> ghost.anywayGos == old(ghost.anywayGos) + 1 && ghost.lastAcceptOK
 //@   flags libframe frame-unchecked
 //@   requires p.pluginContainer != nil && p.sessHub != nil
-//@   modifies allof(type(session)), allof(type(socket.socket)), lockset, waitgroups, channels, mapviews, ghost.sessionCloses, ghost.postDisconnectRuns, ghost.handleScheduled
+//@   modifies allof(type(session)), allof(type(socket.socket)), lockset, waitgroups, channels, mapviews, ghost.sessionCloses, ghost.postDisconnectRuns, ghost.handleScheduled, ghost.anywayGos, ghost.lastAcceptOK, ghost.hubSets
 //@   ensures[rejected-connection-closed-as-session] !statOK(result.1) && statCode(result.1) != CodeWrongConn ==> ghost.sessionCloses == old(ghost.sessionCloses) + 1
 //@   ensures[accepted-session-returned] statOK(result.1) ==> result.0 != nil
 
